@@ -60,6 +60,14 @@ Definition param_accepts (t : option ty) (v : value) : bool :=
 (* FunctionStatement.Call / ClassMethod.Call, case ReturnControl: Ret == nil: anything; else Ret.Is *)
 Definition return_accepts (t : option ty) (v : value) : bool :=
   match t with None => true | Some t' => type_is t' v end.
+(* ClassMethod.Call only: a method declared `: string` (Ret.String() == "string") also lets an object through
+   whose class has __toString (the value is converted); FunctionStatement.Call and closures do not *)
+Definition method_return_accepts (has_tostring : string -> bool) (t : option ty) (v : value) : bool :=
+  return_accepts t v ||
+  match t, v with Some TString, VObj c => has_tostring c | _, _ => false end.
+(* CallStaticProperty.SetProperty: StaticProperty.Store(name, value) — the declared type of a static property
+   is not kept anywhere *)
+Definition static_prop_store_accepts (t : option ty) (v : value) : bool := true.
 End Types.
 
 (* ================= visibility ================= *)
@@ -149,7 +157,15 @@ Inductive path :=
 | PStaticCall                   (* C::m() *)
 | PStaticRead | PStaticWrite    (* C::$p, C::$p = v *)
 | PParentCall                   (* parent::m() *)
-| PIndexRead | PIndexWrite.     (* $o["p"], $o["p"] = v *)
+| PIndexRead | PIndexWrite      (* $o["p"], $o["p"] = v *)
+| PUnset                        (* unset($o->p)                      node/unset.go, after fix 2ff9962 *)
+| PRefArg                       (* f($o->p) with function f(&$x)     CallObjectProperty.GetZVal, after fix 546a733 *)
+| PForeach                      (* foreach ($o as $k => $v): is p listed?   node/foreach.go, after fix e9e9fce *)
+| PNestedAppend                 (* $o->p[] = v: does it take effect? (the denied read is swallowed: never an error) *)
+| PCallable                     (* call_user_func([$o, "m"]) / $f = [$o, "m"]; $f()   objectMethodCallable.Call: no check *)
+| PThisIndexRead | PThisIndexWrite   (* $this["p"], $this["p"] = v *)
+| PSelfProp                     (* self::$p / static::$p   node/call_self_property.go: no check *)
+| PStaticKwCall.                (* static::m()             node/call_static_keyword_method.go: no check *)
 
 Inductive decision := Allow | Deny | NoMember | Fuel.
 
@@ -164,7 +180,7 @@ Definition guarded (t : table) (s : site) (target : string) (m : modifier) : dec
 (* c: the object's runtime class (for ->, [] paths), the named class (for C::), ignored for parent:: *)
 Definition decide (t : table) (s : site) (p : path) (c m : string) : decision :=
   match p with
-  | PArrowRead | PArrowWrite | PDynRead | PDynWrite =>
+  | PArrowRead | PArrowWrite | PDynRead | PDynWrite | PUnset | PRefArg | PForeach | PNestedAppend =>
       match find_prop t c m with
       | None => Fuel | Some None => NoMember
       | Some (Some (_, x)) => guarded t s c (mb_mod x)           (* target = the OBJECT's class *)
@@ -178,8 +194,16 @@ Definition decide (t : table) (s : site) (p : path) (c m : string) : decision :=
       | None => Fuel | Some None => NoMember
       | Some (Some (_, x)) => guarded t s c (mb_mod x)
       end
-  | PThisCall =>
+  | PThisCall | PCallable =>
       match find_meth t c m with
+      | None => Fuel | Some None => NoMember | Some (Some _) => Allow
+      end
+  | PSelfProp =>
+      match find_static_prop t c m with
+      | None => Fuel | Some None => NoMember | Some (Some _) => Allow
+      end
+  | PStaticKwCall =>
+      match find_static_meth t c m with
       | None => Fuel | Some None => NoMember | Some (Some _) => Allow
       end
   | PStaticCall =>
@@ -204,17 +228,9 @@ Definition decide (t : table) (s : site) (p : path) (c m : string) : decision :=
                       end
           end
       end
-  | PIndexRead | PIndexWrite =>
+  | PIndexRead | PIndexWrite | PThisIndexRead | PThisIndexWrite =>      (* $this[...] too, after fix of the ThisValue cases *)
       match find_prop t c m with
       | None => Fuel | Some None => NoMember
       | Some (Some (_, x)) => match mb_mod x with Public => Allow | _ => Deny end
       end
-  end.
-
-(* a store: the object's property table changes only when the access is allowed and the declared
-   type accepts the value *)
-Definition store (d : decision) (type_ok : bool) (vals : list (string * Z)) (p : string) (v : Z) : list (string * Z) * bool :=
-  match d with
-  | Allow => if type_ok then ((p, v) :: vals, true) else (vals, false)
-  | _ => (vals, false)
   end.
